@@ -643,40 +643,43 @@ Qed.
 (** * The receive loop over [parse_frame]: instances of Proofs/FrameProofs.v *)
 From DTN Require Import Proofs.FrameProofs.
 
-Lemma rx_loop_eq St phase handle : forall fuel s buf,
-  rx_loop St phase handle fuel s buf = loop N St frame phase parse_frame handle fuel s buf.
+Lemma rx_loop_eq St phase alive handle : forall fuel s buf,
+  rx_loop St phase alive handle fuel s buf = loop N St frame phase alive parse_frame handle fuel s buf.
 Proof. reflexivity. Qed.
 
-Lemma rx_recv_eq St phase handle : forall st c,
-  rx_recv St phase handle st c = recv N St frame phase parse_frame handle st c.
+Lemma rx_recv_eq St phase alive handle : forall st c,
+  rx_recv St phase alive handle st c = recv N St frame phase alive parse_frame handle st c.
 Proof. reflexivity. Qed.
 
-(** The frame sequence is legal for the handler: each frame is well-formed and
-    is what the phase the handler is in expects (contact header first, then
+(** The frame sequence is legal for the handler: when a frame arrives the
+    handler has not closed the connection, and the frame is well-formed and is
+    what the phase the handler is in expects (contact header first, then
     messages, for a handler that sets [_in_conn] on the contact header). *)
 Section RxConsistent.
   Variable St : Type.
   Variable phase : St -> bool.
+  Variable alive : St -> bool.
   Variable handle : St -> frame -> St.
   Fixpoint rx_consistent (s : St) (fs : list frame) : Prop :=
     match fs with
     | [] => True
-    | f :: fs' => accepts (phase s) f /\ rx_consistent (handle s f) fs'
+    | f :: fs' => alive s = true /\ accepts (phase s) f /\ rx_consistent (handle s f) fs'
     end.
 End RxConsistent.
 
 Section Inst.
   Variable St : Type.
   Variable phase : St -> bool.
+  Variable alive : St -> bool.
   Variable handle : St -> frame -> St.
-  Notation rcv := (rx_recv St phase handle).
+  Notation rcv := (rx_recv St phase alive handle).
 
   Theorem rx_recv_recv : forall st c1 c2, rcv (rcv st c1) c2 = rcv st (c1 ++ c2).
-  Proof. exact (recv_recv N St frame phase parse_frame handle frame_parse_shrinks frame_parse_app). Qed.
+  Proof. exact (recv_recv N St frame phase alive parse_frame handle frame_parse_shrinks frame_parse_app). Qed.
 
   Theorem rx_split_invariance : forall chunks c st,
     fold_left rcv chunks (rcv st c) = rcv st (c ++ concat chunks).
-  Proof. exact (split_invariance N St frame phase parse_frame handle frame_parse_shrinks frame_parse_app). Qed.
+  Proof. exact (split_invariance N St frame phase alive parse_frame handle frame_parse_shrinks frame_parse_app). Qed.
 
   Lemma rx_recv_empty : forall s, rcv (s, []) [] = (s, []).
   Proof. reflexivity. Qed.
@@ -686,53 +689,53 @@ Section Inst.
     fold_left rcv chunks1 (s, []) = fold_left rcv chunks2 (s, []).
   Proof.
     intros chunks1 chunks2 s E. rewrite <- (rx_recv_empty s).
-    exact (split_invariance_any N St frame phase parse_frame handle frame_parse_shrinks frame_parse_app
+    exact (split_invariance_any N St frame phase alive parse_frame handle frame_parse_shrinks frame_parse_app
              chunks1 chunks2 (s, []) E).
   Qed.
 
   Theorem rx_stream : forall fs s,
-    rx_consistent St phase handle s fs ->
+    rx_consistent St phase alive handle s fs ->
     rcv (s, []) (concat (map encode_frame fs)) = (fold_left handle fs s, []).
   Proof.
-    exact (stream_theorem N St frame phase parse_frame handle frame_parse_shrinks
+    exact (stream_theorem N St frame phase alive parse_frame handle frame_parse_shrinks
              encode_frame accepts frame_parse_encode).
   Qed.
 
   Theorem rx_stream_cut : forall fs1 f fs2 s q q',
-    rx_consistent St phase handle s (fs1 ++ f :: fs2) -> encode_frame f = q ++ q' -> q' <> [] ->
+    rx_consistent St phase alive handle s (fs1 ++ f :: fs2) -> encode_frame f = q ++ q' -> q' <> [] ->
     rcv (s, []) (concat (map encode_frame fs1) ++ q) = (fold_left handle fs1 s, q).
   Proof.
-    exact (stream_cut N St frame phase parse_frame handle frame_parse_shrinks frame_parse_app
+    exact (stream_cut N St frame phase alive parse_frame handle frame_parse_shrinks frame_parse_app
              encode_frame accepts frame_parse_encode frame_prefix).
   Qed.
 
   Theorem rx_stream_any_cut : forall fs1 f fs2 s q q' chunks,
-    rx_consistent St phase handle s (fs1 ++ f :: fs2) -> encode_frame f = q ++ q' -> q' <> [] ->
+    rx_consistent St phase alive handle s (fs1 ++ f :: fs2) -> encode_frame f = q ++ q' -> q' <> [] ->
     concat chunks = concat (map encode_frame fs1) ++ q ->
     fold_left rcv chunks (s, []) = (fold_left handle fs1 s, q).
   Proof.
     intros fs1 f fs2 s q q' chunks C E NE EC. rewrite <- (rx_recv_empty s).
-    exact (stream_any_cut N St frame phase parse_frame handle frame_parse_shrinks frame_parse_app
+    exact (stream_any_cut N St frame phase alive parse_frame handle frame_parse_shrinks frame_parse_app
              encode_frame accepts frame_parse_encode frame_prefix fs1 f fs2 s q q' chunks C E NE EC).
   Qed.
 
   Theorem rx_stream_any_cut_all : forall fs s chunks,
-    rx_consistent St phase handle s fs -> concat chunks = concat (map encode_frame fs) ->
+    rx_consistent St phase alive handle s fs -> concat chunks = concat (map encode_frame fs) ->
     fold_left rcv chunks (s, []) = (fold_left handle fs s, []).
   Proof.
     intros fs s chunks C EC. rewrite <- (rx_recv_empty s).
-    exact (stream_any_cut_all N St frame phase parse_frame handle frame_parse_shrinks frame_parse_app
+    exact (stream_any_cut_all N St frame phase alive parse_frame handle frame_parse_shrinks frame_parse_app
              encode_frame accepts frame_parse_encode fs s chunks C EC).
   Qed.
 
   (** The final octets of a frame arrive: it is acted on in that very read. *)
   Theorem rx_complete_acted_on : forall s f p q,
-    accepts (phase s) f -> encode_frame f = p ++ q ->
+    alive s = true -> accepts (phase s) f -> encode_frame f = p ++ q ->
     rcv (s, p) q = (handle s f, []).
   Proof.
-    intros s f p q A E.
+    intros s f p q AL A E.
     change (rcv (s, p) q) with (rcv (s, []) (p ++ q)). rewrite <- E.
-    pose proof (rx_stream [f] s (conj A I)) as R. cbn [map concat fold_left] in R.
+    pose proof (rx_stream [f] s (conj AL (conj A I))) as R. cbn [map concat fold_left] in R.
     rewrite app_nil_r in R. exact R.
   Qed.
 
@@ -742,57 +745,72 @@ Section Inst.
     accepts (phase s) f -> encode_frame f = p ++ q -> q <> [] ->
     rcv (s, []) p = (s, p).
   Proof.
-    intros s f p q A E NE.
-    exact (rx_stream_cut [] f [] s p q (conj A I) E NE).
+    intros s f p q A E NE. unfold rx_recv. cbn [fst snd app]. cbn [rx_loop].
+    destruct p as [|x p]; [reflexivity|].
+    rewrite (frame_prefix _ _ _ _ A E NE). destruct (alive s); reflexivity.
+  Qed.
+
+  (** Once the handler has closed the connection nothing more is handled. *)
+  Theorem rx_closed_inert : forall s buf c, alive s = false -> rcv (s, buf) c = (s, buf ++ c).
+  Proof.
+    intros s buf c AL. unfold rx_recv. cbn [fst snd]. cbn [rx_loop].
+    destruct (buf ++ c); [reflexivity|]. rewrite AL. reflexivity.
   Qed.
 End Inst.
 
 (** The logging handler. *)
-Definition log_phase_step (b : bool) (f : frame) : bool :=
-  match f with FContact c => b || contact_ok c | FMsg _ => b end.
-
-Lemma log_fold : forall fs b lg,
-  fold_left log_handle fs (b, lg) = (fold_left log_phase_step fs b, lg ++ fs).
+Lemma log_fold : forall fs fl lg,
+  fold_left log_handle fs (fl, lg) = (fold_left log_flags fs fl, lg ++ fs).
 Proof.
-  induction fs as [|f fs IH]; intros b lg; cbn [fold_left].
+  induction fs as [|f fs IH]; intros fl lg; cbn [fold_left].
   - rewrite app_nil_r. reflexivity.
   - unfold log_handle at 2. cbn [fst snd]. rewrite IH. rewrite <- app_assoc. reflexivity.
 Qed.
 
-Lemma log_phase_true : forall fs, fold_left log_phase_step fs true = true.
-Proof. induction fs as [|f fs IH]; [reflexivity|]. cbn [fold_left]. destruct f; cbn [log_phase_step orb]; exact IH. Qed.
+Lemma log_flags_msgs : forall ms fl, fold_left log_flags (map FMsg ms) fl = fl.
+Proof. induction ms as [|m ms IH]; intros fl; [reflexivity|]. cbn [map fold_left log_flags]. apply IH. Qed.
 
 Lemma log_consistent_msgs : forall ms lg,
-  Forall wf_msg ms -> rx_consistent log_state log_phase log_handle (true, lg) (map FMsg ms).
+  Forall wf_msg ms -> rx_consistent log_state log_phase log_alive log_handle ((true, true), lg) (map FMsg ms).
 Proof.
   induction ms as [|m ms IH]; intros lg W; cbn [map rx_consistent]; [exact I|].
-  inversion W; subst. split; [split; [assumption|reflexivity]|]. apply IH. assumption.
+  inversion W; subst. split; [reflexivity|]. split; [split; [assumption|reflexivity]|]. apply IH. assumption.
 Qed.
 
 Lemma log_consistent : forall c ms,
   wf_contact c -> contact_ok c = true -> Forall wf_msg ms ->
-  rx_consistent log_state log_phase log_handle (false, []) (FContact c :: map FMsg ms).
+  rx_consistent log_state log_phase log_alive log_handle ((false, true), []) (FContact c :: map FMsg ms).
 Proof.
-  intros c ms Wc Ok Wm. cbn [rx_consistent]. split; [split; [exact Wc|reflexivity]|].
-  unfold log_handle. cbn [fst snd orb app]. rewrite Ok.
+  intros c ms Wc Ok Wm. cbn [rx_consistent]. split; [reflexivity|]. split; [split; [exact Wc|reflexivity]|].
+  unfold log_handle, log_flags. cbn [fst snd app]. rewrite Ok.
   apply log_consistent_msgs. exact Wm.
 Qed.
+
+Lemma log_flags_stream : forall c ms,
+  contact_ok c = true -> fold_left log_flags (FContact c :: map FMsg ms) (false, true) = (true, true).
+Proof. intros c ms Ok. cbn [fold_left log_flags]. rewrite Ok. cbn [snd]. apply log_flags_msgs. Qed.
 
 Theorem rx_log_stream : forall c ms,
   wf_contact c -> contact_ok c = true -> Forall wf_msg ms ->
   rx_log_recv rx_init (concat (map encode_frame (FContact c :: map FMsg ms)))
-  = ((true, FContact c :: map FMsg ms), []).
+  = (((true, true), FContact c :: map FMsg ms), []).
 Proof.
   intros c ms Wc Ok Wm.
-  pose proof (rx_stream log_state log_phase log_handle _ _ (log_consistent c ms Wc Ok Wm)) as R.
-  rewrite log_fold in R. cbn [fold_left log_phase_step orb] in R. rewrite Ok, log_phase_true in R. exact R.
+  pose proof (rx_stream log_state log_phase log_alive log_handle _ _ (log_consistent c ms Wc Ok Wm)) as R.
+  rewrite log_fold, (log_flags_stream c ms Ok) in R. exact R.
 Qed.
 
-Lemma rx_consistent_app St phase handle : forall fs1 fs2 s,
-  rx_consistent St phase handle s (fs1 ++ fs2) -> rx_consistent St phase handle s fs1.
+(** A prefix of [FContact c :: map FMsg ms] is empty or again of that shape. *)
+Lemma prefix_shape : forall (c : contact) (ms : list msg) (fs1 : list frame) (f : frame) (fs2 : list frame),
+  FContact c :: map FMsg ms = fs1 ++ f :: fs2 ->
+  fs1 = [] \/ exists ms1, fs1 = FContact c :: map FMsg ms1.
 Proof.
-  induction fs1 as [|f fs1 IH]; intros fs2 s C; cbn [app rx_consistent] in *; [exact I|].
-  destruct C as [A C]. split; [exact A|]. eapply IH. exact C.
+  intros c ms fs1 f fs2 E. destruct fs1 as [|g fs1]; [left; reflexivity|right].
+  cbn [app] in E. injection E as <- E. revert ms E.
+  induction fs1 as [|h fs1 IH]; intros ms E.
+  - exists []. reflexivity.
+  - destruct ms as [|m ms]; [discriminate|]. cbn [map app] in E. injection E as <- E.
+    destruct (IH ms E) as [ms1 E1]. injection E1 as ->. exists (m :: ms1). reflexivity.
 Qed.
 
 (** Any way of cutting any prefix of a well-formed stream into reads: exactly
@@ -804,41 +822,41 @@ Theorem rx_log_any_cut : forall c ms fs1 f fs2 q q' chunks,
   encode_frame f = q ++ q' -> q' <> [] ->
   concat chunks = concat (map encode_frame fs1) ++ q ->
   fold_left rx_log_recv chunks rx_init
-  = ((match fs1 with [] => false | _ => true end, fs1), q).
+  = (((match fs1 with [] => false | _ => true end, true), fs1), q).
 Proof.
   intros c ms fs1 f fs2 q q' chunks Wc Ok Wm EF E NE EC.
   pose proof (log_consistent c ms Wc Ok Wm) as C. rewrite EF in C.
-  pose proof (rx_stream_any_cut log_state log_phase log_handle fs1 f fs2 (false, []) q q' chunks C E NE EC) as R.
-  destruct fs1 as [|g fs1]; [exact R|]. rewrite log_fold in R.
-  cbn [app] in EF. injection EF as <- _.
-  cbn [fold_left log_phase_step orb] in R. rewrite Ok, log_phase_true in R. exact R.
+  pose proof (rx_stream_any_cut log_state log_phase log_alive log_handle fs1 f fs2 ((false, true), []) q q' chunks C E NE EC) as R.
+  rewrite log_fold in R.
+  destruct (prefix_shape c ms fs1 f fs2 EF) as [->|[ms1 ->]]; [exact R|].
+  rewrite (log_flags_stream c ms1 Ok) in R. exact R.
 Qed.
 
 Theorem rx_log_any_cut_all : forall c ms chunks,
   wf_contact c -> contact_ok c = true -> Forall wf_msg ms ->
   concat chunks = concat (map encode_frame (FContact c :: map FMsg ms)) ->
-  fold_left rx_log_recv chunks rx_init = ((true, FContact c :: map FMsg ms), []).
+  fold_left rx_log_recv chunks rx_init = (((true, true), FContact c :: map FMsg ms), []).
 Proof.
   intros c ms chunks Wc Ok Wm EC.
-  pose proof (rx_stream_any_cut_all log_state log_phase log_handle _ (false, []) chunks (log_consistent c ms Wc Ok Wm) EC) as R.
-  rewrite log_fold in R. cbn [fold_left log_phase_step orb] in R. rewrite Ok, log_phase_true in R. exact R.
+  pose proof (rx_stream_any_cut_all log_state log_phase log_alive log_handle _ ((false, true), []) chunks (log_consistent c ms Wc Ok Wm) EC) as R.
+  rewrite log_fold, (log_flags_stream c ms Ok) in R. exact R.
 Qed.
 
 (** The log only grows: frames already acted on are never revised. *)
 Theorem rx_log_mono : forall st c, exists more,
   snd (fst (rx_log_recv st c)) = snd (fst st) ++ more.
 Proof.
-  assert (G : forall fuel b lg buf, exists more,
-            snd (fst (rx_loop log_state log_phase log_handle fuel (b, lg) buf)) = lg ++ more).
-  { induction fuel as [|fuel IH]; intros b lg buf; cbn [rx_loop].
+  assert (G : forall fuel fl lg buf, exists more,
+            snd (fst (rx_loop log_state log_phase log_alive log_handle fuel (fl, lg) buf)) = lg ++ more).
+  { induction fuel as [|fuel IH]; intros fl lg buf; cbn [rx_loop].
     - exists []. rewrite app_nil_r. reflexivity.
     - destruct buf as [|x buf]; [exists []; rewrite app_nil_r; reflexivity|].
-      destruct (parse_frame (log_phase (b, lg)) (x :: buf)) as [[f r]|]; [|exists []; rewrite app_nil_r; reflexivity].
-      change (log_handle (b, lg) f)
-        with (match f with FContact c => b || contact_ok c | FMsg _ => b end, lg ++ [f]).
-      destruct (IH (match f with FContact c => b || contact_ok c | FMsg _ => b end) (lg ++ [f]) r) as [more E].
+      destruct (log_alive (fl, lg)); [|exists []; rewrite app_nil_r; reflexivity].
+      destruct (parse_frame (log_phase (fl, lg)) (x :: buf)) as [[f r]|]; [|exists []; rewrite app_nil_r; reflexivity].
+      change (log_handle (fl, lg) f) with (log_flags fl f, lg ++ [f]).
+      destruct (IH (log_flags fl f) (lg ++ [f]) r) as [more E].
       exists (f :: more). rewrite E, <- app_assoc. reflexivity. }
-  intros [[b lg] buf] c. unfold rx_log_recv, rx_recv. cbn [fst snd]. apply G.
+  intros [[fl lg] buf] c. unfold rx_log_recv, rx_recv. cbn [fst snd]. apply G.
 Qed.
 
 (** Boolean reflection of well-formedness (for the concrete examples). *)
